@@ -260,7 +260,7 @@ Qed.
 
 (* a write-domain reset shorter than that is NOT safe in the code as written: one write edge under reset with no read
    edge leaves consume_r_gry stale; afterwards r_level = 6 on a depth-4 FIFO holding nothing, and r_rdy = 1
-   (finding C13-wreset-too-short) *)
+   (recorded by the check as reset observation wreset-too-short; C13's text does not quantify over resets) *)
 Theorem C13_async_short_reset_refuted :
   exists n width tr0 trr tr, all_rst trr /\ 1 <= w_edges trr /\ no_rst tr /\
     let st := fst (arun n width tr (fst (arun n width trr (areach n width tr0)), mon0)) in
@@ -275,7 +275,7 @@ Qed.
 Print Assumptions C13_async_short_reset_refuted.
 
 (* AsyncFIFOBuffered, read-domain reset: the output register is cleared while the inner FIFO has already consumed
-   the entry: the entry is lost (finding C13-buffered-rreset-drops-entry): 5 6 7 written, 6 7 read *)
+   the entry: the entry is lost (reset observation buffered-rreset-drops-entry): 5 6 7 written, 6 7 read *)
 Theorem C13_buffered_read_reset_refuted :
   exists n width tr, no_rst tr /\
     let m := snd (breach n width tr) in wlog m = [5; 6; 7] /\ rlog m = [6; 7].
@@ -291,7 +291,7 @@ Print Assumptions C13_buffered_read_reset_refuted.
 
 (* AsyncFIFOBuffered, write-domain reset: even a sufficient episode does not clear the output register when the
    reader is idle: the FIFO does not "become empty", it still offers the stale entry 5
-   (finding C13-buffered-wreset-keeps-entry) *)
+   (reset observation buffered-wreset-keeps-entry) *)
 Theorem C13_buffered_wreset_keeps_entry_refuted :
   exists n width tr0 trr, suff_reset trr /\
     let st := fst (brun n width trr (breach n width tr0)) in bo_rrdy st = true /\ bo_rdata st = 5.
